@@ -44,8 +44,8 @@ static const double PI = 3.14159265358979323846;
 // ---------------------------------------------------------------------------------------------------------
 struct Manifold : ob::Constraint
 {
-    std::string name;
-    EV lo, hi;  // ambient bounds
+    std::string name, params;  // params: everything needed to rebuild the constraint from a witness
+    EV lo, hi;                 // ambient bounds
     bool compact = true;
     Manifold(unsigned n, unsigned co, std::string nm) : ob::Constraint(n, co), name(std::move(nm)) {}
     using ob::Constraint::function;
@@ -159,7 +159,34 @@ static EV randUnit(Rng &rng, int n)
     return v.normalized();
 }
 
+static std::string fmtV(const EV &v)
+{
+    std::string s = "[";
+    for (int i = 0; i < v.size(); ++i) s += (i ? "," : "") + jnum(v[i]);
+    return s + "]";
+}
+
+static std::shared_ptr<Manifold> makeManifoldRaw(Rng &rng, int kind);
 static std::shared_ptr<Manifold> makeManifold(Rng &rng, int kind)
+{
+    auto m = makeManifoldRaw(rng, kind);
+    std::string p;
+    if (auto *q = dynamic_cast<SphereM *>(m.get())) p = "F=|x-c|-R c=" + fmtV(q->c0) + " R=" + jnum(q->R);
+    else if (auto *q = dynamic_cast<EllipsoidM *>(m.get())) p = "F=|(x-c)/a|-1 c=" + fmtV(q->c0) + " a=" + fmtV(q->ax);
+    else if (auto *q = dynamic_cast<TorusM *>(m.get())) p = "F=sqrt((hypot(y0,y1)-R)^2+y2^2)-r y=x-c c=" + fmtV(q->c0) + " R=" + jnum(q->R) + " r=" + jnum(q->r);
+    else if (auto *q = dynamic_cast<PlanesM *>(m.get()))
+    {
+        p = "F=Ax-b";
+        for (int i = 0; i < q->A.rows(); ++i) p += " A" + std::to_string(i) + "=" + fmtV(q->A.row(i).transpose());
+        p += " b=" + fmtV(q->b);
+    }
+    else if (auto *q = dynamic_cast<SpherePlaneM *>(m.get())) p = "F=(|x-c|-R, a.(x-c)-off) c=" + fmtV(q->c0) + " R=" + jnum(q->R) + " a=" + fmtV(q->a) + " off=" + jnum(q->off);
+    else if (auto *q = dynamic_cast<ProductM *>(m.get())) p = "F=(|y[0:3]|-R1, |y[3:5]|-R2) y=x-c c=" + fmtV(q->c0) + " R1=" + jnum(q->R1) + " R2=" + jnum(q->R2);
+    m->params = p + " bounds lo=" + fmtV(m->lo) + " hi=" + fmtV(m->hi);
+    return m;
+}
+
+static std::shared_ptr<Manifold> makeManifoldRaw(Rng &rng, int kind)
 {
     std::shared_ptr<Manifold> m;
     auto box = [&](Manifold &M, const EV &c0, const EV &half) {
@@ -283,7 +310,7 @@ struct Ctx
     J base() const
     {
         J j;
-        j.str("manifold", man->name).str("space", SPACE_NAME[spaceKind]).num("delta", delta).num("lambda", lambda).num("tolerance", tol);
+        j.str("manifold", man->name).str("manifold_params", man->params).str("space", SPACE_NAME[spaceKind]).num("delta", delta).num("lambda", lambda).num("tolerance", tol);
         return j;
     }
     std::vector<double> vec(const ob::State *s) const
@@ -303,7 +330,7 @@ struct Ctx
     bool expectOn(const ob::State *s, const char *clause, J extra)
     {
         double f = man->F(s);
-        sink.maxstat("c16_max_F_over_tolerance", std::min(f / tol, 1e300));
+        if (f <= tolF || !clamped(s)) sink.maxstat("c16_max_F_over_tolerance_unclamped", std::min(f / tol, 1e300));
         if (f <= tolF) return true;
         std::string key = std::string("C16:") + clause + ":" + SPACE_NAME[spaceKind];
         // a sampler state that enforceBounds() clamped into the ambient box after the projection is one root cause whichever of
@@ -595,7 +622,13 @@ static void runCase(Sink &sink, const Args &a, long cs)
                 }
                 case 1:
                 {
-                    auto r = std::make_shared<og::RRTConnect>(csi, rng.coin(0.3));
+                    // RRTConnect's connect loop (`while (gsc == ADVANCED)`, RRTConnect.cpp:294) does not consult the
+                    // termination condition; with addIntermediateStates and TangentBundleSpaceInformation::getMotionStates
+                    // (which returns only [from] when the target is within delta) it never ends once delta < range: the
+                    // harness cannot bound such a run by evaluations, so this combination is not generated (liveness, not C16)
+                    bool inter = rng.coin(0.3);
+                    if (spaceKind == 2) inter = false;
+                    auto r = std::make_shared<og::RRTConnect>(csi, inter);
                     if (range > 0) r->setRange(range);
                     pl = r;
                     break;
@@ -621,6 +654,8 @@ static void runCase(Sink &sink, const Args &a, long cs)
                     break;
                 }
             }
+            if (getenv("VERIF_DEBUG"))
+                fprintf(stderr, "case %ld plan: %s %s %s delta=%g lambda=%g tol=%g range=%g thr=%g obst=%zu dist(start,goal)=%g\n", cs, man->name.c_str(), SPACE_NAME[spaceKind], PLANNER_NAME[plannerKind], delta, lambda, tol, range, thr, obst.size(), css->distance(start.get(), goal.get()));
             pl->setProblemDefinition(pdef);
             pl->setup();
             std::atomic<long> evals{0};
@@ -673,7 +708,7 @@ int main(int argc, char **argv)
         return 2;
     }
     Sink sink(a);
-    long total = a.thorough() ? 20000 : 5000;
+    long total = a.thorough() ? 20000 : 6000;
     total = (long)(total * a.scale);
     for (long c = 0; c < total; ++c)
     {
